@@ -66,8 +66,9 @@ def plan(pid, tier, seed):
     rng = random.Random(seed * 7919 + sum(ord(c) for c in pid))
     P = {"mc": [], "gen": [], "need": {}}
 
-    def mc(module, cfg, cap, post=ident, simulate=None, timeout=900, pick=None):
-        P["mc"].append(dict(module=module, cfg=cfg, cap=cap, post=post, simulate=simulate, timeout=timeout, pick=pick))
+    def mc(module, cfg, cap, post=ident, simulate=None, timeout=900, pick=None, export=True):
+        P["mc"].append(dict(module=module, cfg=cfg, cap=cap, post=post, simulate=simulate, timeout=timeout, pick=pick,
+                            export=export))
 
     def pick_recovering(behs, cap, r):
         """crash behaviours: most exported images hit known finding F4; take mostly those the spec expects to open"""
@@ -142,6 +143,8 @@ def plan(pid, tier, seed):
 
     if pid == "C01":
         mc("MC_Seq", "MC_C01_q.cfg" if q else "MC_C01_t.cfg", 1200 if q else 12000, add_reads)
+        # the oracle itself: structural invariants and read semantics of the reference log (no replay)
+        mc("MCRef", "MC_Ref.cfg", 0, export=False)
         histories(60 if q else 600, 40 if q else 150, dict(flush=0.3, reads=0.5, iter=0.1, reopen=0.05, big=True), rb=True)
         P["need"] = dict(accepted=100, reads=100)
     elif pid == "C02":
@@ -392,7 +395,7 @@ def run_check(pid, tier, seed, keep=False):
         transitions += r["states"]
         mc_info.append(dict(module=job["module"], cfg=job["cfg"], distinct_states=r["distinct"], states_generated=r["states"],
                             depth=r["depth"], wall_s=round(r["wall"], 1), behaviours_exported=total, behaviours_replayed=len(behs)))
-        if total == 0:
+        if total == 0 and job.get("export", True):
             raise vlib.ToolError("TLC %s exported no behaviour" % job["cfg"])
 
     rand_scripts = []
